@@ -146,6 +146,7 @@ def draw_config(rng, family, wmax=16, dmax=8, nodes_max=4, events=(20, 80), **ov
     cfg["n_nodes"] = rng.randrange(1, nodes_max + 1)
     cfg["n_events"] = rng.randrange(events[0], events[1] + 1)
     cfg["factory"] = rng.random() < 0.3 and family in CMS
+    cfg["observe"] = "clone" if rng.random() < 0.7 else "live"
     if family == "hll":
         pool = hll_pool(rng, cfg["p"], cfg["seed"])
     else:
@@ -352,6 +353,12 @@ def gen_event(rng, world, gs, weights, mult):
             ev = gen_disk(rng, world, kind)
         elif kind in ("attach", "drop_view", "drop_owner"):
             ev = gen_views(rng, world, kind)
+        elif kind == "query":
+            if world.fam not in CMS:
+                ev = None
+            else:
+                i = rng.randrange(len(world.nodes))
+                ev = {"op": "query", "node": i, "via": _via(rng, world, i), "key": _pick_key(rng, world.cfg)}
         elif kind == "set_records":
             i = rng.randrange(len(world.nodes))
             ev = {"op": "set_records", "node": i, "via": _via(rng, world, i),
